@@ -87,6 +87,8 @@ pub enum Step {
     Shutdown,
     /// send `ping` to every live root session (documents answer with mark('pong'))
     Ping,
+    /// switch the jitter clock task on/off (timers fire while sessions are busy)
+    Jitter { on: bool },
 }
 
 #[derive(Clone, Debug, Serialize, Deserialize, PartialEq)]
@@ -228,6 +230,7 @@ pub fn run_scenario(sc: Arc<Scenario>, out: Arc<Mutex<DriverOut>>) {
     hooks::SNAPSHOTS_ON.with(|s| s.set(sc.knobs.snapshots));
     let ctx = Arc::new(Ctx { executor: FsmExecutor::new_without_io_processor(), sessions: Arc::new(Mutex::new(Vec::new())), out });
     let mut producer_handles = Vec::new();
+    let mut clock: Option<shuttle::thread::JoinHandle<()>> = None;
 
     for step in &sc.script {
         rec::push(RecKind::Driver { what: format!("{:?}", StepTag(step)) });
@@ -286,6 +289,15 @@ pub fn run_scenario(sc: Arc<Scenario>, out: Arc<Mutex<DriverOut>>) {
                 let mut e = ctx.executor.clone();
                 e.shutdown();
             }
+            Step::Jitter { on } => {
+                if *on {
+                    if clock.is_none() {
+                        clock = Some(timer::start_jitter_clock());
+                    }
+                } else if let Some(h) = clock.take() {
+                    timer::stop_jitter_clock(h);
+                }
+            }
             Step::Ping => {
                 let n = ctx.sessions.lock().unwrap().len();
                 for k in 0..n {
@@ -304,6 +316,9 @@ pub fn run_scenario(sc: Arc<Scenario>, out: Arc<Mutex<DriverOut>>) {
     }
     for h in producer_handles {
         let _ = h.join();
+    }
+    if let Some(h) = clock.take() {
+        timer::stop_jitter_clock(h);
     }
     driver::wait_quiescent();
     ctx.out.lock().unwrap().completed_script = true;
@@ -360,6 +375,7 @@ impl<'a> std::fmt::Debug for StepTag<'a> {
             Step::Cancel { sess } => write!(f, "cancel s{}", sess),
             Step::Shutdown => write!(f, "shutdown"),
             Step::Ping => write!(f, "ping"),
+            Step::Jitter { on } => write!(f, "jitter {}", on),
         }
     }
 }
